@@ -1,6 +1,6 @@
 """C10 - auto-selected amplifiers are allowed, capable and the quietest capable choice.
 
-Complete enumeration of equipment libraries (every subset of size 1-3 of 11 amplifier archetypes, each archetype in two
+Complete enumeration of equipment libraries (every subset of size 1-3 of 12 amplifier archetypes, each archetype in two
 noise-figure variants under the SAME name) x deviation-bounded enumeration of the operating point (span loss, design
 power, channel count, restriction source, fibre loss coefficient incl. per-frequency tables, site graph).
 Real designed_network; the required (gain, power) of every auto-selected amplifier is recomputed with C09's budget
@@ -30,6 +30,10 @@ ARCH = {
     # noise figure between A_low's at its flat-gain limit (7.0 dB) and in its extended-gain window (6.93-6.98 dB): which of
     # the two is quieter depends on evaluating each model at the required gain
     'A_fix697': dict(type_def='fixed_gain', gain_flatmax=19, gain_min=18, p_max=21, nf0=6.97, allowed_for_design=True),
+    # reaches 0.2 dB less gain than A_med and is quieter: when the required gain is just inside A_med's limit this model is
+    # just outside (by less than the 0.3 dB window that only applies when NO model can deliver)
+    'A_med258': dict(type_def='variable_gain', gain_flatmax=25.8, gain_min=15, p_max=21, nf_min=5.6, nf_max=9.6,
+                     allowed_for_design=True),
     'A_raman': dict(type_def='dual_stage', raman=True, gain_min=25, preamp_variety='R_4pumps', booster_variety='R_boost',
                     allowed_for_design=True),
 }
@@ -39,12 +43,16 @@ SUPPORT = {
 }
 NAMES = list(ARCH)
 OP_SPACE = {
-    'length': [130, 15, 40, 70, 100, 165, 200],
+    # 147 ... 148.5 km: the preamplifier's required gain (28.22 ... 28.52 dB) crosses the extended-gain limits of A_med258
+    # (28.3 dB) and A_med (28.5 dB) in 0.1 dB steps
+    'length': [130, 15, 40, 70, 100, 165, 200, 147, 147.5, 148, 148.5],
     'loss': ['0.2', '0.27', 'table_ok', 'table_over_elsewhere'],
     'si_power': [0, -2, 3],
     'f_max': [196.1e12, 193.3e12],
     'restrict': ['none', 'variety_list', 'booster', 'preamp', 'booster+preamp', 'variety_list+booster'],
-    'graph': ['P2', 'P2_inline', 'P2_fused'],
+    # 'P2_fusedout': no booster (a fused element directly after the ROADM), so the first automatic amplifier of the line is
+    # not adjacent to the ROADM whose booster restriction it must therefore not take; '_inline' adds an amplifier slot
+    'graph': ['P2', 'P2_inline', 'P2_fused', 'P2_fusedout', 'P2_fusedout_inline'],
     'amp_voa': [0.0, 2.5],
     'used_library': [0, 1],                    # the library object designed another line (165 km span) before this one
     'band_spacing': [None, 37.5e9, 100e9],     # design band of the ROADM degrees with another channel spacing than SI
@@ -115,6 +123,10 @@ def topology(case, lib):
         fwd = [f(case['length'])]
         if r['variety_list'] is not None or case.get('amp_voa'):
             fwd = [dict(amp), f(case['length'])]     # operator-placed booster slot with its own variety list / VOA
+    elif case['graph'] == 'P2_fusedout':
+        fwd = [c.fused(0.5), f(case['length'])]
+    elif case['graph'] == 'P2_fusedout_inline':
+        fwd = [c.fused(0.5), f(case['length']), dict(amp), f(80)]
     elif case['graph'] == 'P2_fused':
         # an operator-placed amplifier slot (model left to auto-design) that follows a fused element, not a fibre
         fwd = [f(case['length']), c.fused(0.5), dict(amp)]     # auto-design adds no amplifier after a fused element itself
@@ -335,7 +347,8 @@ def main(rep, tier, seed):
     libs = [list(x) for r in (1, 2, 3) for x in itertools.combinations(NAMES, r)]
     if tier == 'thorough':
         libs += [list(x) for x in itertools.combinations(NAMES, 4)]
-    bases = [{}, {'graph': 'P2_inline', 'amp_voa': 2.5}, {'graph': 'P2_fused', 'length': 100}]
+    bases = [{}, {'graph': 'P2_inline', 'amp_voa': 2.5}, {'graph': 'P2_fused', 'length': 100},
+             {'graph': 'P2_fusedout', 'restrict': 'booster'}, {'graph': 'P2_fusedout_inline', 'restrict': 'booster+preamp'}]
     sp = engine.Space(OP_SPACE, bases=bases)
     d = 1 if tier == 'quick' else 2
     ops = [{k: x[k] for k in OP_SPACE} for x in sp.enumerate(d, bases=bases)]
